@@ -13,7 +13,7 @@ Lemma stages_rewrite i mf : stages i mf ->
     (if i_emptydev i then Ok m3 else bind (run_ops (i_tree i) devsetup_ops m3) (extend_dev (i_tree i) ext_lines)) = Ok m4 /\
     run_ops (i_tree i) magic_ops m4 = Ok m5 /\
     run_ops (i_tree i) stddir_ops (exclude (unstaged all m1) m5) = Ok m7 /\
-    run_ops (i_tree i) (script_ops (i_script i)) (add_missing_dirs m7) = Ok m9 /\ mf = add_missing_dirs m9.
+    run_ops (i_tree i) (user_script i) (add_missing_dirs m7) = Ok m9 /\ mf = add_missing_dirs m9.
 Proof.
   intros [sel all m1 m2 m3 m4 m5 m7 m9 E_sel E1 E_all E2 E3 E4 E5 E7 E9 Ef].
   rewrite static_dev_eq in E4. exists sel, all, m1, m2, m3, m4, m5, m7, m9. repeat split; assumption.
@@ -23,7 +23,7 @@ Qed.
    an omit line was named again by a later line, or is the parent directory of a member (or is
    the root of the archive) *)
 Theorem omit_removes i mf : good_input i -> stage_map i = Ok mf ->
-  forall pre nm w post k, script_ops (i_script i) = pre ++ OOmit nm w :: post ->
+  forall pre nm w post k, user_script i = pre ++ OOmit nm w :: post ->
   omit_hit nm w k = true -> mem k mf = true ->
   ops_name (i_tree i) post k \/ (exists k0, mem k0 mf = true /\ In k (nrparents k0)) \/ k = root_path.
 Proof.
@@ -43,7 +43,7 @@ Qed.
 (* membership, "if" parts *)
 Theorem member_if_recorded i mf sel : stage_map i = Ok mf ->
   all_contents (selected (i_pkgs i)) = Ok sel ->
-  forall n, In n sel -> lstat (i_tree i) n <> None -> omits_none (script_ops (i_script i)) n -> mem n mf = true.
+  forall n, In n sel -> lstat (i_tree i) n <> None -> omits_none (user_script i) n -> mem n mf = true.
 Proof.
   intros Hm Es n Hn Hl Ho. apply stage_map_stages, stages_rewrite in Hm.
   destruct Hm as (sel' & all & m1 & m2 & m3 & m4 & m5 & m7 & m9 & E_sel & E1 & E_all & E2 & E3 & E4 & E5 & E7 & E9 & ->).
@@ -52,7 +52,7 @@ Proof.
            sel all m1 m2 m3 m4 m5 m7 m9 E1 E2 E3 E4 E5 E7 E9 n Hn Hl Ho).
 Qed.
 Theorem member_if_user i mf : stage_map i = Ok mf ->
-  forall pre li post n, script_ops (i_script i) = pre ++ OAdd li :: post ->
+  forall pre li post n, user_script i = pre ++ OAdd li :: post ->
   In n (op_targets (i_tree i) li) -> (li_skip li = true -> lstat (i_tree i) n <> None) ->
   omits_none post n -> mem n mf = true.
 Proof.
